@@ -345,6 +345,8 @@ def main():
     # 1. translator
     import time as _t
     def ph(x):
+        if not os.environ.get("VERIF_VERBOSE"):
+            return
         sys.stderr.write("[C10 %.0fs] %s\n" % (_t.time() - chk.t0, x)); sys.stderr.flush()
     rc, tout = vlib.sh("python3 %s/translate/tr_guards.py" % V)
     trans_problems = [l for l in tout.splitlines() if l.startswith("PROBLEM")]
